@@ -24,11 +24,11 @@ var wkinds = []wkind{
 	{Name: "elifcond"}, // 3  if false { } else if (a += K) > 0 { . }       (assignment expression in the else-if condition)
 	{Name: "loop1", Loop: true, NoCont: true}, // 4  for { . ; break }
 	{Name: "loop2", Loop: true},               // 5  k = 0; for { k = k + 1; if k > 2 { break }; . }
-	{Name: "while1", Loop: true, Deep: true},              // 6  k = 0; for k < 1 { k = k + 1; . }
+	{Name: "while1", Loop: true, Deep: true},  // 6  k = 0; for k < 1 { k = k + 1; . }
 	{Name: "while2", Loop: true},              // 7  k = 0; for k < 2 { k = k + 1; . }
 	{Name: "cfor1", Loop: true},               // 8  for i = 0; i < 1; i++ { . }
 	{Name: "cfor2", Loop: true},               // 9  for i = 0; i < 2; i++ { . }
-	{Name: "forin1", Loop: true, Deep: true},              // 10 for x in [v] { . }
+	{Name: "forin1", Loop: true, Deep: true},  // 10 for x in [v] { . }
 	{Name: "forin2", Loop: true},              // 11 for x in [v, w] { . }
 	{Name: "forinA2", Loop: true},             // 12 for a in [v, w] { . }                            (pool name as loop variable)
 	{Name: "case", Switch: true},              // 13 switch 1 { case 1: . }
